@@ -177,11 +177,17 @@ Record Inv (st : net) : Prop := mkInv {
            exists t c, n < t /\ In c (n_q st t) /\ q_id c = p /\ q_from c = Some (n, q_id r);
   i_rows : forall n r own rw, In r (n_q st n) -> q_st r = Some (own, rw) ->
            In (q_id r, own, map fst rw) (n_der st) /\ forall p a, In (p, Some a) rw -> In (p, a) (n_ans st);
-  i_ans : ans_ok (n_der st) (n_ans st)
+  i_ans : ans_ok (n_der st) (n_ans st);
+  i_ansdone : forall id, In id (map fst (n_ans st)) <-> exists n, In id (n_done st n);
+  i_disj : forall n m id, In id (n_arr st n) -> In id (n_arr st m) -> n = m;
+  i_ansnd : NoDup (map fst (n_ans st))
 }.
 
 Lemma inv0 : Inv net0.
-Proof. constructor; cbn; auto; try tauto; try constructor; intros; tauto. Qed.
+Proof.
+  constructor; cbn; auto; try tauto; try constructor; try (intros; tauto).
+  intros [n []].
+Qed.
 
 (* ---- lemmas about start ---- *)
 Lemma start_spec own ids l rid l' :
@@ -241,6 +247,17 @@ Proof.
   apply in_combine_r in H. apply in_seq in H. lia.
 Qed.
 
+Lemma combine_seq_fun (tgts : list nat) s x y i :
+  In (x, i) (combine tgts (seq s (length tgts))) -> In (y, i) (combine tgts (seq s (length tgts))) -> x = y.
+Proof.
+  revert s. induction tgts as [|t0 tgts IH]; intros s; cbn; [tauto|].
+  intros [Hx|Hx] [Hy|Hy].
+  - congruence.
+  - injection Hx as _ <-. apply in_combine_r, in_seq in Hy. lia.
+  - injection Hy as _ <-. apply in_combine_r, in_seq in Hx. lia.
+  - eapply IH; eauto.
+Qed.
+
 Lemma kids_sent (tgts : list nat) s i : In i (seq s (length tgts)) -> exists t, In (t, i) (combine tgts (seq s (length tgts))).
 Proof.
   revert s. induction tgts as [|t0 tgts IH]; intros s; cbn; [tauto|].
@@ -285,7 +302,7 @@ Qed.
 Lemma step_in st n st' : Inv st -> step st (LIn n) = Some st' -> Inv st'.
 Proof.
   intros I H. cbn [step] in H. destruct (Nat.ltb n N) eqn:L; [|discriminate]. injection H as <-. apply Nat.ltb_lt in L.
-  destruct I as [Ia If In_ Ib Ik Ir Ians]. constructor; cbn.
+  destruct I as [Ia If In_ Ib Ik Ir Ians Iad Idj Ind]. constructor; cbn.
   - intros m. unfold upd. destruct (Nat.eqb m n) eqn:E; auto. apply Nat.eqb_eq in E. subst m.
     rewrite Ia, map_app, app_assoc. reflexivity.
   - intros m id. unfold upd. destruct (Nat.eqb m n); intros Hin.
@@ -306,6 +323,16 @@ Proof.
       apply in_app_or in Hr as [Hr|[<-|[]]]; auto. cbn in Hs. discriminate Hs. }
     apply (Ir m r own rw Hr0 Hs).
   - exact Ians.
+  - exact Iad.
+  - intros x y id Hx Hy.
+    assert (P : forall z, In id (upd (n_arr st) n (n_arr st n ++ [n_next st]) z) -> (In id (n_arr st z)) \/ (z = n /\ id = n_next st)).
+    { intros z Hz. unfold upd in Hz. destruct (Nat.eqb z n) eqn:E; auto. apply Nat.eqb_eq in E. subst z.
+      apply in_app_or in Hz as [Hz|[<-|[]]]; auto. }
+    destruct (P x Hx) as [Ox|[-> Ex]], (P y Hy) as [Oy|[-> Ey]]; auto.
+    + eapply Idj; eauto.
+    + apply If in Ox. lia.
+    + apply If in Oy. lia.
+  - exact Ind.
 Qed.
 
 (* ---- answering ---- *)
@@ -328,7 +355,7 @@ Lemma answer_inv st n r rest a :
   Inv st -> n_q st n = r :: rest -> justified (n_der st) (n_ans st) (q_id r) a -> Inv (answer st n r rest a).
 Proof.
   intros I Q J. unfold answer.
-  destruct I as [Ia If In_ Ib Ik Ir Ians].
+  destruct I as [Ia If In_ Ib Ik Ir Ians Iad Idj Ind].
   set (q1 := upd (n_q st) n rest).
   set (q' := match q_from r with Some (m, rq) => upd q1 m (map (fill rq (q_id r) a) (q1 m)) | None => q1 end).
   assert (Q1 : forall x c, In c (n_q st x) -> (x = n /\ c = r) \/ In c (q1 x)).
@@ -384,6 +411,21 @@ Proof.
         { right. auto. }
       * split; auto. intros p a' Hp. right. auto.
   - split; [exact J|exact Ians].
+  - intros id. cbn [map fst]. split.
+    + intros [<-|Hid].
+      * exists n. rewrite upd_same. apply in_or_app. right. left. reflexivity.
+      * apply Iad in Hid as [m Hm]. exists m. unfold upd. destruct (Nat.eqb m n) eqn:E; auto.
+        apply Nat.eqb_eq in E. subst m. apply in_or_app. auto.
+    + intros [m Hm]. unfold upd in Hm. destruct (Nat.eqb m n) eqn:E.
+      * apply in_app_or in Hm as [Hm|[<-|[]]]; [|left; reflexivity]. right. apply Iad. eauto.
+      * right. apply Iad. eauto.
+  - exact Idj.
+  - cbn [map fst]. constructor; auto. intros Hid. apply Iad in Hid as [m Hm].
+    assert (Am : In (q_id r) (n_arr st m)) by (rewrite Ia; apply in_or_app; auto).
+    assert (An : In (q_id r) (n_arr st n)) by (rewrite Ia, Q; apply in_or_app; right; left; reflexivity).
+    assert (m = n) by (eapply Idj; eauto). subst m.
+    pose proof (In_ n) as Nd. rewrite Ia, Q in Nd. cbn [map] in Nd.
+    apply NoDup_remove_2 in Nd. apply Nd. apply in_or_app. auto.
 Qed.
 
 Lemma step_ans st n st' : Inv st -> step st (LAns n) = Some st' -> Inv st'.
@@ -409,7 +451,7 @@ Proof.
 Qed.
 
 Lemma step_close st n st' : Inv st -> step st (LClose n) = Some st' -> Inv st'.
-Proof. intros [Ia If In_ Ib Ik Ir Ians] H. cbn [step] in H. injection H as <-. constructor; auto. Qed.
+Proof. intros [Ia If In_ Ib Ik Ir Ians Iad Idj Ind] H. cbn [step] in H. injection H as <-. constructor; auto. Qed.
 
 (* ---- finishing an action ---- *)
 Lemma nodup_app_disj (l1 l2 : list nat) : NoDup l1 -> NoDup l2 -> (forall x, In x l1 -> ~ In x l2) -> NoDup (l1 ++ l2).
@@ -439,7 +481,7 @@ Proof.
   destruct (forallb _ tgts) eqn:TG; [|discriminate].
   set (ids := seq (n_next st) (length tgts)) in *.
   destruct (start own ids (n_q st n)) as [[rid qn]|] eqn:ST; [|discriminate]. injection H as <-.
-  destruct I as [Ia If In_ Ib Ik Ir Ians].
+  destruct I as [Ia If In_ Ib Ik Ir Ians Iad Idj Ind].
   destruct (start_spec _ _ _ _ _ ST) as [pre [r [post [Q [S [Rid Qn]]]]]].
   set (r' := mkreq (q_id r) (q_from r) (Some (own, fresh_row ids))) in *.
   set (tis := combine tgts ids).
@@ -500,6 +542,14 @@ Proof.
       * left. cbn. rewrite Rid. reflexivity.
       * intros p a Hp. apply fresh_row_in in Hp as [Hp _]. discriminate.
   - eapply ans_ok_mono; [|exact Ians]. intros x Hx. right. exact Hx.
+  - exact Iad.
+  - intros x y id Hx Hy. destruct (SS x) as [_ Bx]. destruct (SS y) as [_ By]. rewrite Bx in Hx. rewrite By in Hy.
+    apply in_app_or in Hx as [Hx|Hx]; apply in_app_or in Hy as [Hy|Hy].
+    + eapply Idj; eauto.
+    + apply If in Hx. apply sent_to_in, TI in Hy. lia.
+    + apply If in Hy. apply sent_to_in, TI in Hx. lia.
+    + apply sent_to_in in Hx. apply sent_to_in in Hy. eapply combine_seq_fun; eauto.
+  - exact Ind.
 Qed.
 
 (* ---- every reachable state ---- *)
@@ -520,7 +570,7 @@ Qed.
 Theorem answered_once_in_order ls n :
   let st := run ls in
   n_arr st n = n_done st n ++ map q_id (n_q st n) /\ NoDup (n_arr st n).
-Proof. destruct (run_inv ls) as [Ia _ In_ _ _ _ _]. split; auto. Qed.
+Proof. destruct (run_inv ls) as [Ia _ In_ _ _ _ _ _ _ _]. split; auto. Qed.
 
 (* every answer is its node's own result (nothing derived), or the join of answers given earlier to
    the packets derived from the request *)
@@ -677,6 +727,21 @@ Theorem teardown_any_run ls :
   (forall n, n_q st' n = [] /\ n_done st' n = n_arr st n /\ NoDup (n_done st' n)) /\ ans_ok (n_der st') (n_ans st').
 Proof.
   intros st st'. destruct (teardown_releases_all st (run_inv ls)) as [A B]. split; auto. apply (i_ans _ A).
+Qed.
+
+(* over the whole network: a packet has at most one recorded answer, and it has one exactly when some node has
+   answered it; after a teardown every packet that ever arrived anywhere has exactly one *)
+Theorem one_answer_per_packet ls :
+  let st := run ls in
+  NoDup (map fst (n_ans st)) /\ forall id, In id (map fst (n_ans st)) <-> exists n, In id (n_done st n).
+Proof. pose proof (run_inv ls) as I. split; [apply (i_ansnd _ I)|apply (i_ansdone _ I)]. Qed.
+
+Theorem teardown_one_answer ls :
+  let st' := teardown (run ls) in
+  NoDup (map fst (n_ans st')) /\ forall n id, In id (n_arr (run ls) n) -> In id (map fst (n_ans st')).
+Proof.
+  cbv zeta. destruct (teardown_releases_all (run ls) (run_inv ls)) as [A B]. split; [apply (i_ansnd _ A)|].
+  intros n id Hid. apply (i_ansdone _ A). exists n. destruct (B n) as [_ [E _]]. rewrite E. exact Hid.
 Qed.
 
 End Net.
